@@ -338,6 +338,21 @@ func addTime(T map[string]intrinsic) {
 	}
 	T["(time.Time).Before"] = cmp("Before")
 	T["(time.Time).After"] = cmp("After")
+	// Unix / UnixMilli / UnixMicro: floor division of the nanosecond count by a constant
+	for name, div := range map[string]uint64{"Unix": 1000000000, "UnixMilli": 1000000, "UnixMicro": 1000} {
+		div := div
+		name := name
+		T["(time.Time)."+name] = func(m *Machine, th *Thread, fr *Frame, f FuncV, a []Value) (Value, invStatus) {
+			t := tm(a[0])
+			nonZero(m, t, name)
+			tt := m.tt
+			d := tt.BV(div, 64)
+			q := tt.Bin(OpSDiv, t.ns, d)
+			r := tt.Bin(OpSRem, t.ns, d)
+			neg := tt.Cmp(OpSLT, r, tt.BV(0, 64))
+			return done(tt.Ite(neg, tt.Bin(OpSub, q, tt.BV(1, 64)), q))
+		}
+	}
 	T["(time.Time).Equal"] = cmp("Equal")
 	T["(time.Time).Compare"] = cmp("Compare")
 	T["(time.Time).IsZero"] = func(m *Machine, th *Thread, fr *Frame, f FuncV, a []Value) (Value, invStatus) {
